@@ -462,3 +462,40 @@ def comp_elt_form(comp: ast.AST, f: Func, at: Optional[ast.AST] = None) -> str:
     """Value form of the element of a list comprehension, its variables named like loop variables."""
     y = _value_ast(comp, f, at)
     return norm(y.elt) if isinstance(y, (ast.ListComp, ast.SetComp, ast.GeneratorExp)) else norm(y)
+
+
+# ---------------------------------------------------------------- definite assignment over estimator entry points
+def definite_assignment_over(repo: Repo, rr, classes: Iterable[Cls], entries: Iterable[str], consequence: str, only_file: Optional[str] = None):
+    """Adds one instance per non-compiled function reachable from the given entry points of the given classes: every
+    local that is read must be assigned on every path (CFG dataflow; a `for` target is unassigned on the zero-trip edge)."""
+    from ..cfg import definite_assignment
+
+    seen = set()
+    for c in classes:
+        for entry in entries:
+            for f in repo.reachable_from(c, entry):
+                if f in seen or f.is_njit or (only_file is not None and f.file != only_file):
+                    continue
+                seen.add(f)
+                g = CFG(f.node)
+                params = list(f.params) + ([f.node.args.vararg.arg] if f.node.args.vararg else []) + ([f.node.args.kwarg.arg] if f.node.args.kwarg else [])
+                outer: Set[str] = set()
+                p = f.parent
+                while p is not None:
+                    outer |= set(p.params)
+                    for n in walk_no_nested(p.node):
+                        if isinstance(n, ast.Assign):
+                            for t in n.targets:
+                                outer |= set(target_names(t))
+                    p = p.parent
+                by_name: Dict[str, List[ast.AST]] = {}
+                for n, name in definite_assignment(g, params):
+                    if name not in outer:
+                        by_name.setdefault(name, []).append(n)
+                if not by_name:
+                    rr.ok(f, "locals", "assigned on all paths", f.node.lineno, nontrivial=len(g.nodes) > 10)
+                for name, nodes in sorted(by_name.items()):
+                    rr.bad(f, "local `%s`" % name,
+                           "`%s` is read at line %s but some path reaches that line without assigning it: %s"
+                           % (name, ", ".join(str(n.lineno) for n in nodes[:3]), consequence), nodes[0].lineno)
+    return rr
